@@ -35,6 +35,25 @@ classes of the model (no field axioms).
                  `SetBounds` of `ops` (to the constructor if there is none).
 * `s.answer ops op` : the value answered by the call `op` issued after `ops` (for an array output:
                  its contents right after the call).
+
+## Hypotheses (all bundled in `s.Valid ops`; satisfiable, see `Example.valid1`, `Example.valid2`)
+* the constructor's bounds arrays are valid refs with `n` entries (`Setup.WF`);
+* every argument ref of every call is, when the call is issued, an array the caller can name
+  (`Knows`: it existed before the object was created or was returned by an earlier `GetImage` —
+  hence it is a valid ref) and has `n` entries;
+* the caller never writes and allocates nothing during the session: all its arrays exist
+  beforehand (the statements quantify over every initial heap) or are results of `GetImage`.
+`Knows` cannot be weakened to "valid ref": a caller that passes the object's own scratch array
+(Python attribute `yValues`) as an argument does see it modified (`Example`, below).
+The length hypotheses are used only for `N = 1` (in-place `self.yValues[0] = x - 0.5` needs a
+scratch array with one entry, and the scratch array is a copy of the last inverse-query argument).
+
+## Statements
+`C17_scratch_private` (invariant), `C17_step_writes`, `C17_frame`, `C17_frame_visible`,
+`C17_args_unchanged`, `C17_functional` (+ `_image`, `_inverse`, `_preimages`), `C17_result_stable`,
+`C17_history_independent` (+ `_inverse`, `_same_object`), `C17_preimages_eq_inverse` (+ `_run`);
+characterisation of `boundsInForce`: `Setup.boundsInForce_nil/_setBounds/_query`.
+Negative control: `Example.nc1`, `Example.nc2` (`stepNoCopy`).
 -/
 
 set_option linter.unusedSectionVars false
@@ -52,6 +71,7 @@ inductive Val (α : Type) where
   | array (v : List α)
   | number (x : α)
   | unit
+  deriving DecidableEq
 
 /-- the value of an output: arrays are dereferenced in heap `h` -/
 def Out.value (h : Heap α) : Out α → Val α
@@ -498,4 +518,142 @@ theorem C17_preimages_eq_inverse_run (s : Setup α) (ops : List (Op α)) :
     cases op <;> rfl
 
 end
+
+/-! ## Non-vacuity: concrete sessions over `ℚ`, and the negative control
+
+`α := Rat` (core Lean), `TruncNat` = floor.  All facts below are checked by kernel evaluation. -/
+
+namespace Example
+
+local instance : TruncNat Rat := ⟨fun x => x.floor.toNat⟩
+
+deriving instance DecidableEq for Out
+
+instance (s : Setup Rat) : Decidable s.WF := by unfold Setup.WF; infer_instance
+instance (s : Setup Rat) (ops : List (Op Rat)) (op : Op Rat) : Decidable (s.ArgsOK ops op) := by
+  unfold Setup.ArgsOK Setup.Knows; infer_instance
+
+/-! ### `N = 1`: the scratch array IS reused across calls -/
+
+/-- caller arrays: `0 ↦ [0]` (lower), `1 ↦ [10]` (upper), `2 ↦ [7]`;  `N = 1`.
+`__init__` allocates the scratch array at ref `3`. -/
+def s1 : Setup Rat :=
+  { heap := { cells := #[[0], [10], [7]] }, n := 1, m := 10, lo := 0, hi := 1 }
+
+/-- `a = GetImage(1/4)` (returned at ref 4), `b = GetImage(3/4)` (ref 5), `GetInverseImage(a)` -/
+def ops1 : List (Op Rat) := [.image (1/4), .image (3/4), .inverse 4]
+
+theorem valid1_pre : s1.Valid [.image (1/4), .image (3/4)] :=
+  .snoc (ops := [.image (1/4)])
+    (.snoc (ops := []) (.nil (by decide)) (by decide)) (by decide +kernel)
+
+/-- the session is valid: the hypotheses of all C17 theorems are satisfiable -/
+theorem valid1 : s1.Valid ops1 :=
+  .snoc (ops := [.image (1/4), .image (3/4)]) valid1_pre (by decide +kernel)
+
+/-- the outputs: two fresh arrays and the number `1/4` -/
+example : (s1.run ops1).outs = [.array 4, .array 5, .number (1/4)] := by decide +kernel
+
+/-- the scratch array (ref 3, allocated by `__init__`) is reused by both `GetImage` calls; it
+holds the second result after the second call -/
+example : (s1.run []).obj.scratch = 3 ∧ (s1.run [.image (1/4)]).obj.scratch = 3 ∧
+    (s1.run [.image (1/4), .image (3/4)]).obj.scratch = 3 ∧
+    (s1.run [.image (1/4)]).heap.read 3 = [5/2] ∧
+    (s1.run [.image (1/4), .image (3/4)]).heap.read 3 = [15/2] := by decide +kernel
+
+/-- ... and nevertheless the FIRST returned array (ref 4) is unchanged: `[5/2]` right after its
+call, after the second `GetImage`, and at the end of the session -/
+example : (s1.run [.image (1/4)]).heap.read 4 = [5/2] ∧
+    (s1.run [.image (1/4), .image (3/4)]).heap.read 4 = [5/2] ∧
+    (s1.run ops1).heap.read 4 = [5/2] := by decide +kernel
+
+/-- the same fact obtained from `C17_frame` (its hypotheses hold here) -/
+example : (s1.run ops1).heap.read 4 = (s1.run [.image (1/4)]).heap.read 4 :=
+  C17_frame s1 [.image (1/4)] [.image (3/4), .inverse 4] valid1 4 (Or.inr (by decide +kernel))
+
+/-- `C17_scratch_private`, `C17_functional_*`, `C17_result_stable` instantiated -/
+example := C17_scratch_private s1 ops1 valid1
+example := C17_functional_inverse s1 [.image (1/4), .image (3/4)] 4 valid1_pre
+example := C17_functional_image s1 [.image (1/4), .image (3/4)] (1/2) valid1_pre
+example : s1.answer [.image (1/4), .image (3/4)] (.inverse 4) = .number (1/4) := by decide +kernel
+example : s1.answer [.image (1/4)] (.image (3/4)) = .array [15/2] := by decide +kernel
+example := C17_result_stable s1 [] (1/4) (.nil (by decide))
+
+/-- history independence: `GetImage(3/4)` asked first, or after `GetImage(1/4)`, `GetInverseImage`
+and a `SetBounds` with the same contents, gives the same answer -/
+example : s1.answer [] (.image (3/4)) =
+    s1.answer [.image (1/4), .inverse 4, .setBounds 0 1] (.image (3/4)) :=
+  C17_history_independent s1 s1 [] [.image (1/4), .inverse 4, .setBounds 0 1]
+    (.nil (by decide))
+    (.snoc (ops := [.image (1/4), .inverse 4])
+      (.snoc (ops := [.image (1/4)])
+        (.snoc (ops := []) (.nil (by decide)) (by decide)) (by decide +kernel)) (by decide +kernel))
+    rfl rfl (by decide +kernel) (3/4)
+
+/-- a ref the caller cannot know (the scratch ref 3) is NOT an OK argument: the validity
+hypothesis is not trivially true either -/
+example : ¬ s1.ArgsOK [.image (1/4)] (.inverse 3) := by decide +kernel
+
+/-- WHY `ArgsOK` asks for `Knows` and not merely for "a valid ref to an array with `n` entries":
+if the caller got hold of the scratch ref (Python: by reading the attribute `ev.yValues`) and
+passed it as an argument — here as the upper bound in `SetBounds(0, 3)`; ref 3 is valid and has
+one entry — then this ARGUMENT array is modified by the next `GetImage`.  The property presupposes
+that the caller only uses its own arrays and the returned ones. -/
+example :
+    3 < (s1.run [.image (1/4)]).heap.size ∧ ((s1.run [.image (1/4)]).heap.read 3).length = s1.n ∧
+    (s1.run [.image (1/4), .setBounds 0 3]).heap.read 3 = [5/2] ∧
+    (s1.run [.image (1/4), .setBounds 0 3, .image (3/4)]).heap.read 3 = [15/8] := by
+  decide +kernel
+
+/-! ### `N = 2`, with `SetBounds` in the middle -/
+
+def s2 : Setup Rat :=
+  { heap := { cells := #[[0, 0], [1, 2], [1/3, 1/5], [-1, -1]] }, n := 2, m := 3, lo := 0, hi := 1 }
+
+def ops2 : List (Op Rat) :=
+  [.image (1/3), .inverse 6, .setBounds 3 1, .preimages 2, .image (5/7), .inverse 10]
+
+theorem valid2 : s2.Valid ops2 :=
+  .snoc (ops := [.image (1/3), .inverse 6, .setBounds 3 1, .preimages 2, .image (5/7)])
+  (.snoc (ops := [.image (1/3), .inverse 6, .setBounds 3 1, .preimages 2])
+  (.snoc (ops := [.image (1/3), .inverse 6, .setBounds 3 1])
+  (.snoc (ops := [.image (1/3), .inverse 6])
+  (.snoc (ops := [.image (1/3)])
+  (.snoc (ops := []) (.nil (by decide)) (by decide)) (by decide +kernel)) (by decide +kernel))
+    (by decide +kernel)) (by decide +kernel)) (by decide +kernel)
+
+example : (s2.run ops2).outs =
+    [.array 6, .number (21/64), .unit, .number (13/16), .array 10, .number (45/64)] := by
+  decide +kernel
+example : s2.boundsInForce ops2 = ([-1, -1], [1, 2]) := by decide +kernel
+example : s2.boundsInForce [.image (1/3), .inverse 6] = ([0, 0], [1, 2]) := by decide +kernel
+/-- the array returned by the first call still holds the first result at the end -/
+example : (s2.run ops2).heap.read 6 = [1/16, 15/8] ∧
+    (s2.run [.image (1/3)]).heap.read 6 = [1/16, 15/8] := by decide +kernel
+example := C17_scratch_private s2 ops2 valid2
+example := C17_frame_visible s2 [.image (1/3), .inverse 6] [.setBounds 3 1, .preimages 2,
+  .image (5/7), .inverse 10] valid2 6 (by decide +kernel)
+
+/-! ### Negative control: without `np.copy` the frame property FAILS
+
+`stepNoCopy` (`IOptProofs/EvObj.lean`) is `step` with `GetImage` returning `self.yValues` itself
+when `N = 1`.  Two calls `a = GetImage(1/4); b = GetImage(3/4)` on the object of `s1`: -/
+
+/-- first call with the no-copy variant -/
+def nc1 : StepResult Rat := stepNoCopy (s1.run []).heap (s1.run []).obj (.image (1/4))
+/-- second call with the no-copy variant -/
+def nc2 : StepResult Rat := stepNoCopy nc1.heap nc1.obj (.image (3/4))
+
+/-- the array returned by the first call (ref 3 = the scratch array) is CHANGED by the second
+call: `[5/2]` became `[15/2]`.  So the statement of `C17_frame` is false for this variant. -/
+example : nc1.out.refs = [3] ∧ nc1.heap.read 3 = [5/2] ∧ nc2.heap.read 3 = [15/2] := by
+  decide +kernel
+example : ¬ ∀ r ∈ nc1.out.refs, nc2.heap.read r = nc1.heap.read r := by decide +kernel
+example : nc2.heap.read 3 ≠ nc1.heap.read 3 := by decide +kernel
+/-- the same two calls with the real `step`: the first result is kept -/
+example : ∀ r ∈ (s1.run [.image (1/4)]).outs.flatMap Out.refs,
+    (s1.run [.image (1/4), .image (3/4)]).heap.read r = (s1.run [.image (1/4)]).heap.read r := by
+  decide +kernel
+
+end Example
 end EvObj
